@@ -109,6 +109,12 @@ def main(tier):
                         W['workloads'].append({'kind': run.rng.choice(['Deployment', 'StatefulSet', 'ReplicaSet']), 'ns': base['ns'], 'name': base['name'] + '-1',
                                                'labels': {'app': 'sfx'}, 'ports': [], 'replicas': run.rng.choice([None, 1]), 'owner': None})
                 force = None
+                if cid % 10 == 2 and W['workloads']:
+                    # a Job whose pod template carries no labels (the Job object itself does): its pods are label-less, so a policy for
+                    # the object's labels does not select them - as for any other kind with the same template
+                    base = run.rng.choice(W['workloads'])
+                    base['kind'], base['owner'], base['labels'] = 'Job', None, {}
+                    W['netpols'].append({'ns': base['ns'], 'name': 'npobjlabels', 'podSelector': {'matchLabels': {'app': 'a'}}, 'policyTypes': ['Ingress', 'Egress']})
                 if cid % 10 in (1, 4) and W['workloads']:
                     # one port number under two protocols and two names, the second one named by a policy: a controller's pod template and
                     # bare Pods with the same containers declare the same ports
